@@ -498,7 +498,7 @@ func runReplayTest(opt runOpts, pkgRel, src string) (string, bool) {
 	return s, strings.Contains(s, "REPLAY-CONFIRMED")
 }
 
-func extraJobsImpl(L *Loaded, id string, opt runOpts) []unitJob { return nil }
+func extraJobsImpl(L *Loaded, id string, opt runOpts) []unitJob { return lawJobs(L, id, opt) }
 
 func modelRune(o *oblOutcome) (int64, bool) {
 	v, ok := o.r.Model["range-rune"]
